@@ -140,8 +140,12 @@ class Report:
             "wall_s": round(time.time() - self.t0, 3),
             "violations": len(viol),
         }
-        os.makedirs(os.path.join(VERIF, "evidence"), exist_ok=True)
-        evp = os.path.join(VERIF, "evidence", f"{self.pid}.json")
+        evdir = os.environ.get("VERIF_EVIDENCE_DIR")
+        if not evdir:
+            # runs against a scratch copy (VERIF_REPO) never overwrite the evidence of the real tree
+            evdir = os.path.join(VERIF, "evidence") if facts.REPO == "/repo" else os.path.join(VERIF, ".cache", "evidence-scratch")
+        os.makedirs(evdir, exist_ok=True)
+        evp = os.path.join(evdir, f"{self.pid}.json")
         with open(evp, "w") as fh:
             json.dump(ev, fh, indent=1, sort_keys=True)
             fh.write("\n")
@@ -149,7 +153,7 @@ class Report:
               f"{len(viol)} violation(s); {len(self.analysed['functions'])} functions analysed; "
               f"{ev['wall_s']} s")
         if viol:
-            rp = os.path.join(VERIF, "evidence", f"{self.pid}.violations.json")
+            rp = os.path.join(evdir, f"{self.pid}.violations.json")
             with open(rp, "w") as fh:
                 json.dump({"property": self.pid, "violations": viol}, fh, indent=1)
             print(f"VIOLATION property={self.pid} replay={rp}")
